@@ -36,6 +36,8 @@ real TCPRequestHandler) whose modules are the generated classes G (vf/genmods_no
 Oracle calibration
   * compared on exported values (the wrapper legitimately re-validates what the dispatcher validated); in addition
     refmodel.judge must accept (payload -> value the driver received, previous = cached value).
+  * 'a partial struct merged into the current value': the statement does not say how deep; the outermost struct must be
+    merged, for a struct nested inside it both readings are admitted (merged with the current member, or replacing it).
   * MUST accept only *canonical* payloads (ref_export): int for int/scaled/enum, int|float for double, true/false for
     bool, text for string/blob, complete or partial structs whose merge with the current value is complete.  The other
     members of values.valid (true for an int, 5.0 for an int, 0/1 for a bool ...) and every boundary payload MAY be
@@ -70,8 +72,10 @@ PAYLOAD_CLASSES = {'WrongType', 'RangeError'}
 # ---------------------------------------------------------------------------------------------
 # reference conversion of a payload (canonical payloads only)
 
-def ref_export(spec, x, prev=NOVALUE):
-    """the exported value a canonical valid payload denotes (prev = exported current value, for structs), else NOVALUE"""
+def ref_export(spec, x, prev=NOVALUE, deep=True):
+    """the exported value a canonical valid payload denotes (prev = exported current value, for structs), else NOVALUE.
+    deep=False: only the outermost struct is merged with the current value (a struct nested in it replaces the
+    current member as a whole)"""
     k = spec[0]
     if k == 'double':
         if isinstance(x, bool) or not isinstance(x, (int, float)):
@@ -117,12 +121,12 @@ def ref_export(spec, x, prev=NOVALUE):
     if k == 'array':
         if not isinstance(x, list) or not spec[2] <= len(x) <= spec[3]:
             return NOVALUE
-        res = [ref_export(spec[1], e) for e in x]
+        res = [ref_export(spec[1], e, NOVALUE, deep) for e in x]
         return NOVALUE if any(r is NOVALUE for r in res) else res
     if k == 'tuple':
         if not isinstance(x, list) or len(x) != len(spec[1]):
             return NOVALUE
-        res = [ref_export(m, e) for m, e in zip(spec[1], x)]
+        res = [ref_export(m, e, NOVALUE, deep) for m, e in zip(spec[1], x)]
         return NOVALUE if any(r is NOVALUE for r in res) else res
     if k == 'struct':
         if not isinstance(x, dict):
@@ -135,7 +139,7 @@ def ref_export(spec, x, prev=NOVALUE):
             return NOVALUE      # only optional members may be omitted in a change
         res = dict(prev) if isinstance(prev, dict) else {}
         for name, e in x.items():
-            r = ref_export(members[name], e, res.get(name, NOVALUE))
+            r = ref_export(members[name], e, res.get(name, NOVALUE) if deep else NOVALUE, deep)
             if r is NOVALUE:
                 return NOVALUE
             res[name] = r
@@ -349,6 +353,7 @@ class Exp:
         self.rec = rec              # reference record of the addressed accessible (None for name errors)
         self.kind = kind            # 'param' | 'command'
         self.value = value          # reference conversion (exported) when known
+        self.alt = value            # admissible alternative: nested structs not merged with the current value
 
 
 def by_wire(table, name):
@@ -416,7 +421,9 @@ def gate(ref, letter, state):
             return Exp('refuse', {'RangeError'}, 'limit', rec, 'param', ev)
         if not hooks_ok(rec, ev):
             return Exp('refuse', {'RangeError'}, 'check-hook', rec, 'param', ev)
-        return Exp('accept', (), 'valid', rec, 'param', ev)
+        exp = Exp('accept', (), 'valid', rec, 'param', ev)
+        exp.alt = ref_export(spec, x, state.get(attr), deep=False)
+        return exp
     # do
     attr, rec = by_wire(ref['commands'], name)
     if rec is None:
@@ -650,7 +657,7 @@ def judge_step(ref, letter, state, obs):
         except Exception as e:
             bad(f'value-received-unexportable:{type(e).__name__}', f'received {r!r}')
             return outcome, problems
-        if exp.value is not NOVALUE and ev != exp.value:
+        if exp.value is not NOVALUE and ev != exp.value and ev != exp.alt:
             bad('value-received-differs-from-reference-conversion', f'received {ev!r}, reference {exp.value!r}')
         # whatever was accepted must satisfy the dynamic limits and the hooks
         if rec.get('limits') and isinstance(ev, (int, float)) and not limits_ok(rec, ev, state):
